@@ -660,8 +660,8 @@ example :
 
 
 /-! ## blocked mean filter (`MeanFilterBlocked`), per block component `j`: `col bs j x` is the scalar vector of
-    component `j`; the volume of the component must be consistent and non-zero (cf. finding `c06-edge:F1`: the
-    constructor does not check the components) -/
+    component `j`; the volume of the component must be consistent and non-zero (for a filter object built by the
+    constructors this is a theorem since the repair of finding `c06-edge:F1`: see `C06.meanB3_*` below) -/
 
 /-- `filter_cor`: component `j` of the result has zero primal mean -/
 theorem C06.meanB_cor_zero {α : Type} [Field α] [DecidableEq α] (f : MeanBF α) (v w : List α) (j : Nat)
@@ -948,3 +948,97 @@ theorem C06.gmean_rhs_zero {α : Type} [Field α] [DecidableEq α] (comm : Bool)
                 rw [dotL_axpyL v dual prim _ hl, hint, dotL_comm dual prim, hvol]
                 field_simp
                 ring
+
+/-! ## blocked mean filter after the repair of finding c06-edge:F1: the constructors test EVERY volume component
+    (`|vol_j| > eps`), so a successfully constructed non-empty filter never divides by zero and the constraint
+    theorems need no hypothesis about the volume.  `absGtEps x` is `Math::abs(x) > eps`; all that is used of it is
+    `absGtEps x = true → x ≠ 0`. -/
+
+/-- both value constructors: every volume component of the constructed (non-empty) filter is non-zero -/
+theorem C06.meanB_constructed_volume_nonzero {α : Type} [Field α] [DecidableEq α] (absGtEps : α → Bool)
+    (habs : ∀ x, absGtEps x = true → x ≠ 0) (bs : Nat) (prim dual sol vol : List α) (f : MeanBF α) (hne : prim ≠ [])
+    (hf : MeanBF.mk3 absGtEps bs prim dual sol = some f ∨ MeanBF.mk4 absGtEps bs prim dual sol vol = some f) :
+    f.bs = bs ∧ f.prim = prim ∧ ∀ j, j < bs → f.vol.getD j 0 ≠ 0 := by
+  have hemp : prim.isEmpty = false := by cases h : prim <;> simp_all
+  have key : ∀ (w : List α), MeanBF.volOk absGtEps bs w = true → ∀ j, j < bs → w.getD j 0 ≠ 0 := by
+    intro w hw j hj
+    simp only [MeanBF.volOk, List.all_eq_true, List.mem_range] at hw
+    exact habs _ (hw j hj)
+  rcases hf with hf | hf
+  · unfold MeanBF.mk3 at hf
+    split at hf
+    · simp at hf
+    · simp only [hemp, Bool.not_false, Bool.true_and] at hf
+      split at hf
+      · simp at hf
+      · rename_i hok
+        simp only [Option.some.injEq] at hf
+        subst hf
+        exact ⟨rfl, rfl, key _ (by simpa using hok)⟩
+  · unfold MeanBF.mk4 at hf
+    simp only [hemp, Bool.not_false, Bool.true_and] at hf
+    split at hf
+    · simp at hf
+    · rename_i hok
+      simp only [Option.some.injEq] at hf
+      subst hf
+      exact ⟨rfl, rfl, key _ (by simpa using hok)⟩
+
+/-- hence the division-by-zero guard of `filter_rhs/sol/def/cor` never fires for a constructed filter
+    (`vol` has one entry per block component) -/
+theorem C06.meanB_constructed_divisions_defined {α : Type} [Field α] [DecidableEq α] (absGtEps : α → Bool)
+    (habs : ∀ x, absGtEps x = true → x ≠ 0) (bs : Nat) (prim dual sol vol : List α) (f : MeanBF α) (hne : prim ≠ [])
+    (hf : MeanBF.mk3 absGtEps bs prim dual sol = some f ∨ MeanBF.mk4 absGtEps bs prim dual sol vol = some f)
+    (hlen : f.vol.length = bs) : f.vol.any (fun c => c = 0) = false := by
+  obtain ⟨_, _, hnz⟩ := C06.meanB_constructed_volume_nonzero absGtEps habs bs prim dual sol vol f hne hf
+  rw [Bool.eq_false_iff]
+  intro hany
+  simp only [List.any_eq_true, decide_eq_true_eq] at hany
+  obtain ⟨c, hc, hc0⟩ := hany
+  obtain ⟨i, hi, hic⟩ := List.getElem_of_mem hc
+  have := hnz i (by omega)
+  rw [List.getD_eq_getElem?_getD, List.getElem?_eq_getElem hi, Option.getD_some, hic] at this
+  exact this hc0
+
+/-- a filter built by the 3-argument constructor (volume computed by `dot_blocked`) has a consistent volume -/
+theorem C06.meanB3_volume_consistent {α : Type} [Field α] [DecidableEq α] (absGtEps : α → Bool) (bs : Nat)
+    (prim dual sol : List α) (f : MeanBF α) (hf : MeanBF.mk3 absGtEps bs prim dual sol = some f) (j : Nat)
+    (hj : j < bs) : f.bs = bs ∧ f.prim = prim ∧
+      f.vol.getD j 0 = dotL (col f.bs j f.prim) (col f.bs j f.dual) := by
+  unfold MeanBF.mk3 at hf
+  split at hf
+  · simp at hf
+  · simp only at hf
+    split at hf
+    · simp at hf
+    · simp only [Option.some.injEq] at hf
+      subst hf
+      refine ⟨rfl, rfl, ?_⟩
+      simp [dotBlocked, List.getD_eq_getElem?_getD, hj]
+
+/-- `filter_cor` of a constructed filter: zero primal mean in every component, no volume hypothesis -/
+theorem C06.meanB3_cor_zero {α : Type} [Field α] [DecidableEq α] (absGtEps : α → Bool)
+    (habs : ∀ x, absGtEps x = true → x ≠ 0) (bs : Nat) (prim dual sol : List α) (f : MeanBF α) (hne : prim ≠ [])
+    (hf : MeanBF.mk3 absGtEps bs prim dual sol = some f) (v w : List α) (hrun : f.filterCor v = some w)
+    (j : Nat) (hj : j < bs) : dotL (col f.bs j w) (col f.bs j f.dual) = 0 := by
+  obtain ⟨hb, hp, hvol⟩ := C06.meanB3_volume_consistent absGtEps bs prim dual sol f hf j hj
+  obtain ⟨_, _, hnz⟩ := C06.meanB_constructed_volume_nonzero absGtEps habs bs prim dual sol [] f hne (Or.inl hf)
+  exact C06.meanB_cor_zero f v w j (by omega) hvol (hnz j hj) (by rw [hp]; exact hne) hrun
+
+/-- `filter_rhs` / `filter_def` of a constructed filter: zero dual mean in every component -/
+theorem C06.meanB3_rhs_zero {α : Type} [Field α] [DecidableEq α] (absGtEps : α → Bool)
+    (habs : ∀ x, absGtEps x = true → x ≠ 0) (bs : Nat) (prim dual sol : List α) (f : MeanBF α) (hne : prim ≠ [])
+    (hf : MeanBF.mk3 absGtEps bs prim dual sol = some f) (v w : List α) (hrun : f.filterRhs v = some w)
+    (j : Nat) (hj : j < bs) : dotL (col f.bs j w) (col f.bs j f.prim) = 0 := by
+  obtain ⟨hb, hp, hvol⟩ := C06.meanB3_volume_consistent absGtEps bs prim dual sol f hf j hj
+  obtain ⟨_, _, hnz⟩ := C06.meanB_constructed_volume_nonzero absGtEps habs bs prim dual sol [] f hne (Or.inl hf)
+  exact C06.meanB_rhs_zero f v w j (by omega) hvol (hnz j hj) (by rw [hp]; exact hne) hrun
+
+/-- `filter_sol` of a constructed filter: the weighted mean of every component is the prescribed solution mean -/
+theorem C06.meanB3_sol {α : Type} [Field α] [DecidableEq α] (absGtEps : α → Bool)
+    (habs : ∀ x, absGtEps x = true → x ≠ 0) (bs : Nat) (prim dual sol : List α) (f : MeanBF α) (hne : prim ≠ [])
+    (hf : MeanBF.mk3 absGtEps bs prim dual sol = some f) (v w : List α) (hrun : f.filterSol v = some w)
+    (j : Nat) (hj : j < bs) : dotL (col f.bs j w) (col f.bs j f.dual) / f.vol.getD j 0 = f.sol.getD j 0 := by
+  obtain ⟨hb, hp, hvol⟩ := C06.meanB3_volume_consistent absGtEps bs prim dual sol f hf j hj
+  obtain ⟨_, _, hnz⟩ := C06.meanB_constructed_volume_nonzero absGtEps habs bs prim dual sol [] f hne (Or.inl hf)
+  exact C06.meanB_sol f v w j (by omega) hvol (hnz j hj) (by rw [hp]; exact hne) hrun
